@@ -166,7 +166,7 @@ func c12Sample(rng *rand.Rand, n int) []string {
 // C12 — the shim answers every call and survives any call order.
 func C12(r *core.Run) {
 	r.Level = "exploration"
-	r.SetRule("websockets.Proxy driven in-process (race-built worker with the verif hooks, agent's GODEBUG defaults, real gorilla backend). (i) sequential histories over the 18-symbol alphabet {open: valid|malformed URL|upgrade refused; data: valid|unknown|closed|malformed JSON|wrong msg type; poll/close: valid|unknown|closed|malformed; backend-send; backend-close}: bounded-exhaustive: every history up to length 4 that a static session model enables (thorough: plus sampled histories of length 5-7), each followed by a wind-down and a liveness probe on the same handler; (ii) concurrent pairs data‖close, close‖close, poll‖close, data‖backend-close, poll‖backend-close, open‖poll(guessed id) under hook schedules that park one goroutine at a hook until the other has passed a second point (2 s safety timeout), repeated; (iii) unforced stress: 8-16 goroutines issuing data/poll/close on one session while the backend talks and then client or backend closes; (iv) one idle poll that must time out by itself and, at the same time on a second idle session, two overlapping polls that must each be answered; (xii) 2, 3, 5 or 16 open calls in flight at once, the backend holding every upgrade until all handshakes have arrived: returned session ids pairwise distinct, every session carries a message to its own backend connection and one back, every close answered 200 and every backend websocket closed afterwards; (xi, thorough tier only) two sessions whose backend is silent for 33 s (one polled continuously, one left alone) and which must then work as before, a crash of the process in the meantime being read from the worker log; (x, thorough tier only) an open against a backend that accepts the TCP connection and never answers the upgrade must be answered within 60 s (the dialer's handshake time-out is 45 s); (ix) the backend sends n in {1,9,10,11,12,15,40} unpolled messages, dies abruptly 250 ms later, the client posts data until refused and only then polls: the first min(n,11) messages (10 queued + 1 in the reader's hand) must be delivered in order before the session is reported closed; (v) bounded-exhaustive mixed-ID data batches: every composition up to length 3 (thorough 4) of entries naming {open session A, open session B, session closed by the client, session closed by the backend and reported by a poll, unknown id}, judged for the 400 rule, for routing (no message on a backend connection its entry did not name) and, when all entries are valid, delivery; (vii) body alphabet, bounded-exhaustive: every endpoint {open,data,poll,close} x every odd body {null, padded null, true, false, numbers, bare strings, [], {}, [null], [[]], [{}], ids of wrong JSON type, wrong key case, trailing data, deep arrays/objects (100 and 20000 levels), 1 MiB strings, invalid UTF-8, BOM, empty, non-JSON} x {no session, one open, one open and one closed}: answered without panic, 400 when no usable session id is named, bystander session unharmed; (viii) a hung backend that is finally dropped: a 12 MiB message parks the writer goroutine in its TCP write, 10 (or fewer) small data calls fill the client queue, close and/or data are issued without waiting, then the backend resets the connection - every call must be answered within its bound counted from the drop; (vi) a push-only backend that never reads from the websocket (no close handshake is ever answered): every script up to length 3 over {data, poll, wait until more is pushed than the shim queues} followed by close, after which the backend must see the agent tear the connection down. class = history | pair/schedule | stress shape")
+	r.SetRule("websockets.Proxy driven in-process (race-built worker with the verif hooks, agent's GODEBUG defaults, real gorilla backend). (i) sequential histories over the 18-symbol alphabet {open: valid|malformed URL|upgrade refused; data: valid|unknown|closed|malformed JSON|wrong msg type; poll/close: valid|unknown|closed|malformed; backend-send; backend-close}: bounded-exhaustive: every history up to length 4 that a static session model enables (thorough: plus sampled histories of length 5-7), each followed by a wind-down and a liveness probe on the same handler; (ii) concurrent pairs data‖close, close‖close, poll‖close, data‖backend-close, poll‖backend-close, open‖poll(guessed id) under hook schedules that park one goroutine at a hook until the other has passed a second point (2 s safety timeout), repeated; (iii) unforced stress: 8-16 goroutines issuing data/poll/close on one session while the backend talks and then client or backend closes; (iv) one idle poll that must time out by itself and, at the same time on a second idle session, two overlapping polls that must each be answered; (xiii) the backend closes first and, once the agent has noticed, 50 data calls on that session: after the first 400 none may be answered 200; (xiv) opens with odd X-Websocket-Shim-Version values (2, 7, -1, 01, padded, 1.0, v1, int64 limits, overflow, empty ...) followed by binary traffic both ways: no panic, every call answered, the binary message intact under one of the two encodings; (xii) 2, 3, 5 or 16 open calls in flight at once, the backend holding every upgrade until all handshakes have arrived: returned session ids pairwise distinct, every session carries a message to its own backend connection and one back, every close answered 200 and every backend websocket closed afterwards; (xi, thorough tier only) two sessions whose backend is silent for 33 s (one polled continuously, one left alone) and which must then work as before, a crash of the process in the meantime being read from the worker log; (x, thorough tier only) an open against a backend that accepts the TCP connection and never answers the upgrade must be answered within 60 s (the dialer's handshake time-out is 45 s); (ix) the backend sends n in {1,9,10,11,12,15,40} unpolled messages, dies abruptly 250 ms later, the client posts data until refused and only then polls: the first min(n,11) messages (10 queued + 1 in the reader's hand) must be delivered in order before the session is reported closed; (v) bounded-exhaustive mixed-ID data batches: every composition up to length 3 (thorough 4) of entries naming {open session A, open session B, session closed by the client, session closed by the backend and reported by a poll, unknown id}, judged for the 400 rule, for routing (no message on a backend connection its entry did not name) and, when all entries are valid, delivery; (vii) body alphabet, bounded-exhaustive: every endpoint {open,data,poll,close} x every odd body {null, padded null, true, false, numbers, bare strings, [], {}, [null], [[]], [{}], ids of wrong JSON type, wrong key case, trailing data, deep arrays/objects (100 and 20000 levels), 1 MiB strings, invalid UTF-8, BOM, empty, non-JSON} x {no session, one open, one open and one closed}: answered without panic, 400 when no usable session id is named, bystander session unharmed; (viii) a hung backend that is finally dropped: a 12 MiB message parks the writer goroutine in its TCP write, 10 (or fewer) small data calls fill the client queue, close and/or data are issued without waiting, then the backend resets the connection - every call must be answered within its bound counted from the drop; (vi) a push-only backend that never reads from the websocket (no close handshake is ever answered): every script up to length 3 over {data, poll, wait until more is pushed than the shim queues} followed by close, after which the backend must see the agent tear the connection down. class = history | pair/schedule | stress shape")
 	r.Assume("the quick tier does not run the silent-backend open (it takes the dialer's 45 s handshake time-out) nor the 33 s idle-session case; the thorough tier runs both")
 	r.Assume("a session counts as closed once a close answered 200 or a poll answered 400 for it; between a backend-initiated close and that poll, data may answer 200 or 400; complete delivery after a backend close is only demanded when no client data/close call on that session intervened")
 	bin := r.MustBuild(r.BuildWorker())
@@ -295,6 +295,14 @@ func C12(r *core.Run) {
 			copen = append(copen, c12Case{ID: fmt.Sprintf("co%d-%d-%d", n, len(copen), rep), Kind: "copen", Rep: n})
 		}
 	}
+	// the backend closes first, then a run of data calls on the dead session; odd X-Websocket-Shim-Version values
+	var deadrun, oddver []c12Case
+	for i := 0; i < r.Pick(10, 60); i++ {
+		deadrun = append(deadrun, c12Case{ID: fmt.Sprintf("dr%d", i), Kind: "deadrun", Rep: i})
+	}
+	for i, v := range []string{"2", "7", "-1", "01", " 1", "1.0", "v1", "9223372036854775807", "99999999999999999999", "-9223372036854775808", "+1", "0x1", "1e0", "", "0", "1", "3"} {
+		oddver = append(oddver, c12Case{ID: fmt.Sprintf("ov%d", i), Kind: "oddver", Label: v})
+	}
 	var longidle []c12Case
 	if !r.Quick() {
 		silent = append(silent, c12Case{ID: "silent", Kind: "silent"})
@@ -302,7 +310,7 @@ func C12(r *core.Run) {
 		longidle = append(longidle, c12Case{ID: "longidle", Kind: "longidle", Rep: 33})
 	}
 	all := map[string]c12Case{}
-	for _, l := range [][]c12Case{hist, forced, stress, batch, noread, bodies, stall, dead, silent, longidle, copen} {
+	for _, l := range [][]c12Case{hist, forced, stress, batch, noread, bodies, stall, dead, silent, longidle, copen, deadrun, oddver} {
 		for _, c := range l {
 			all[c.ID] = c
 		}
@@ -352,7 +360,7 @@ func C12(r *core.Run) {
 	if r.OnlyCase >= 0 {
 		// replay: one case of the concatenated list hist, forced, stress
 		var cat []c12Case
-		for _, l := range [][]c12Case{hist, forced, stress, batch, noread, bodies, stall, dead, silent, longidle, copen} {
+		for _, l := range [][]c12Case{hist, forced, stress, batch, noread, bodies, stall, dead, silent, longidle, copen, deadrun, oddver} {
 			cat = append(cat, l...)
 		}
 		if r.OnlyCase < len(cat) {
@@ -370,6 +378,7 @@ func C12(r *core.Run) {
 		launch(stall, 2, 2)
 		launch(dead, 2, 4)
 		launch(copen, 2, 2)
+		launch(append(append([]c12Case{}, deadrun...), oddver...), 2, 4)
 	}
 	wg.Wait()
 
@@ -461,6 +470,12 @@ func C12(r *core.Run) {
 		case "batch":
 			r.Case("data-batch:[" + strings.Join(c.Ops, ",") + "]->" + res.Statuses)
 			r.Add("mixed_id_data_batches", 1)
+		case "deadrun":
+			r.Case(fmt.Sprintf("data-run-on-session-whose-backend-closed-first:%s|%s", []string{"graceful", "abrupt"}[c.Rep%2], res.Statuses))
+			r.Add("data_runs_on_dead_sessions", 1)
+		case "oddver":
+			r.Case(fmt.Sprintf("open-with-version:%q|%s", c.Label, res.Statuses))
+			r.Add("sessions_with_odd_protocol_version", 1)
 		case "copen":
 			r.Case(fmt.Sprintf("overlapping-opens:%d|%s", c.Rep, res.Statuses))
 			r.Add("opens_overlapping_at_the_backend", c.Rep)
@@ -525,7 +540,7 @@ func C12(r *core.Run) {
 	r.Set("hook_hits", hits)
 	r.Set("max_case_duration_ms", maxMs)
 	r.JudgeRaces(core.ParseRaceLogs(filepath.Join(r.WorkDir, "race-")))
-	minCases := exhaustive + settled + len(forced) + len(stress) + len(batch) + len(noread) + len(bodies) + len(stall) + len(dead) + len(copen) - 50
+	minCases := exhaustive + settled + len(forced) + len(stress) + len(batch) + len(noread) + len(bodies) + len(stall) + len(dead) + len(copen) + len(deadrun) + len(oddver) - 50
 	if r.OnlyCase >= 0 {
 		minCases = 1
 	}
@@ -542,6 +557,10 @@ func c12Describe(c c12Case) string {
 		return fmt.Sprintf("seed %d, %d goroutines", c.Seed, c.G)
 	case "batch":
 		return "data batch [" + strings.Join(c.Ops, ",") + "] (A,B open; C closed by client; D closed by backend; U unknown)"
+	case "deadrun":
+		return "the backend closes first, the agent notices, then 50 data calls on that session before any poll"
+	case "oddver":
+		return fmt.Sprintf("open with X-Websocket-Shim-Version %q, then binary traffic both ways", c.Label)
 	case "copen":
 		return fmt.Sprintf("%d open calls in flight at once (the backend answers no upgrade before all handshakes have arrived), then data, poll and close on every returned session", c.Rep)
 	case "longidle":
